@@ -12,9 +12,15 @@ import (
 // VerifC11Resegment resegments a fragmented single-track file (nFrags fragments of nSamples
 // samples, symbolic durations / composition offsets / sync flags / payload) to a symbolic new
 // duration and checks that the ordered sample sequence is conserved.
-func VerifC11Resegment(nFrags int, nSamples int) {
+func VerifC11Resegment(nFrags int, nSamples int, trexDefaults bool) {
 	init := mp4.CreateEmptyInit()
 	init.AddEmptyTrack(1000, "video", "und")
+	if trexDefaults {
+		// the sample size is signalled only through the trex default (no size column in the trun,
+		// no default in the tfhd); the trex duration default is deliberately different
+		init.Moov.Mvex.Trex.DefaultSampleSize = 2
+		init.Moov.Mvex.Trex.DefaultSampleDuration = 7
+	}
 	var all bytes.Buffer
 	if err := init.Encode(&all); err != nil {
 		panic("harness: init")
@@ -39,6 +45,9 @@ func VerifC11Resegment(nFrags int, nSamples int) {
 			frag.AddFullSample(fs)
 			want = append(want, fs)
 			t += uint64(dur)
+		}
+		if trexDefaults {
+			frag.Moof.Traf.Trun.Flags &^= mp4.TrunSampleSizePresentFlag
 		}
 		if err := seg.Encode(&all); err != nil {
 			panic("harness: segment encode")
